@@ -261,6 +261,58 @@ Proof.
   destruct x as [[a r]|]; [|left; reflexivity]. right. apply q_delegation_rewards in Q. apply (view_rw su w S d v _ V Hi Q).
 Qed.
 
+(* a withdrawal touches no other denomination *)
+Lemma withdraw_others P now s d v s' : bank_wf (s_bank s) -> exec_withdraw P now s d v = SOk s' ->
+  forall dn, dn <> TOKEN ->
+    (forall x, bank_balance (s_bank s') x dn = bank_balance (s_bank s) x dn) /\
+    bank_supply (s_bank s') dn = bank_supply (s_bank s) dn.
+Proof.
+  intros Hw H dn Hn. unfold exec_withdraw in H. inv_bind H as s1 Hu.
+  destruct (get_stake d v s1) as [sh|]; [|discriminate]. inv_bind H as b Hb. apply of_bank_ok in Hb. injection H as <-.
+  apply update_rewards_spec in Hu as (vi & comm & _ & _ & (_ & _ & Bk & _) & _).
+  cbn [s_bank put_stake set_stakes set_bank] in *. rewrite Bk in Hb.
+  match type of Hb with bank_mint _ ?to ?cs = _ => pose proof (bank_mint_spec (s_bank s) to cs Hw) as S end.
+  rewrite Hb in S. destruct S as (_ & _ & Hbal & Hsup).
+  assert (T0 : tot dn (tok (to_uint_floor (sh_rew sh))) = 0).
+  { unfold tok. cbn [tot]. destruct (beqb dn TOKEN) eqn:E; [apply beqb_eq in E; contradiction|reflexivity]. }
+  split; [intros x; rewrite Hbal, T0; destruct (beqb x _); lia|rewrite Hsup, T0; lia].
+Qed.
+
+Lemma amount_of_filter (p : coin -> bool) dn : forall l, (forall c, fst c = dn -> p c = true) ->
+  amount_of dn (filter p l) = amount_of dn l.
+Proof.
+  induction l as [|[d' x] l IH]; intros H; [reflexivity|]. cbn [filter]. destruct (p (d', x)) eqn:E.
+  - rewrite !amount_of_cons, IH by exact H. reflexivity.
+  - rewrite amount_of_cons, IH by exact H. destruct (beqb dn d') eqn:E2; [|reflexivity].
+    apply beqb_eq in E2. subst d'. rewrite (H (dn, x) eq_refl) in E. discriminate.
+Qed.
+Lemma amount_of_other b a dn : dn <> TOKEN -> amount_of dn (other_coins b a) = bank_balance b a dn.
+Proof.
+  intros Hn. unfold other_coins, bank_balance, bank_all. apply amount_of_filter. intros c <-.
+  destruct (beqb (fst c) TOKEN) eqn:E; [apply beqb_eq in E; contradiction|reflexivity].
+Qed.
+Lemma other_coins_denoms b a dn : In dn (map fst (other_coins b a)) -> dn <> TOKEN.
+Proof.
+  intros H C. subst dn. apply in_map_iff in H as (c & Ec & Hc). unfold other_coins in Hc. apply filter_In in Hc as [_ Hc].
+  rewrite Ec, beqb_refl in Hc. discriminate.
+Qed.
+Lemma others_same_model su w w' B A : views su w B -> views su w' A ->
+  (forall dn, dn <> TOKEN -> (forall x, bank_balance (s_bank (w_st w')) x dn = bank_balance (s_bank (w_st w)) x dn) /\
+                            bank_supply (s_bank (w_st w')) dn = bank_supply (s_bank (w_st w)) dn) ->
+  others_same B A = true.
+Proof.
+  intros VB VA H. unfold others_same. rewrite (v_xall _ _ _ VB), (v_xall _ _ _ VA), (v_xsup _ _ _ VB), (v_xsup _ _ _ VA).
+  apply andb_true_iff. split.
+  - induction (acct_ids su) as [|a l IH]; [reflexivity|]. cbn [map xall_same]. rewrite IH, andb_true_r.
+    apply forallb_forall. intros dn Hd. apply N.eqb_eq.
+    assert (Hn : dn <> TOKEN) by (apply in_app_or in Hd as [Hd|Hd]; eapply other_coins_denoms; exact Hd).
+    rewrite !amount_of_other by exact Hn. apply (H dn Hn).
+  - assert (E : map (other_supply (s_bank (w_st w'))) (su_xdenoms su) = map (other_supply (s_bank (w_st w))) (su_xdenoms su)).
+    { apply map_ext. intros dn. unfold other_supply. destruct (beqb dn TOKEN) eqn:E; [reflexivity|].
+      apply (H dn). intros C. subst. rewrite beqb_refl in E. discriminate. }
+    rewrite E. apply list_eqb_refl', N.eqb_refl.
+Qed.
+
 Lemma withdraw_ok_15 su os w B d v w' A :
   setup_ok su -> In d (su_dels su) -> winv su w -> osim su os w -> views su w B ->
   step su w (Withdraw d v) = SOk w' -> views su w' A ->
@@ -291,6 +343,7 @@ Proof.
       rewrite (bals_same_except_model su w (mkW (w_now w) s') B A VB VA).
       2:{ intros x _. destruct (withdraw_addr (w_st w) d =? x) eqn:E; [left; reflexivity|right]. apply Bo.
           intros C. subst x. rewrite N.eqb_refl in E. discriminate. }
+      rewrite (others_same_model su w (mkW (w_now w) s') B A VB VA (withdraw_others _ _ _ _ _ _ Hbo Hs)), andb_true_r.
       apply (amts_same_model su w (mkW (w_now w) s') B A VB VA). intros d' v'. apply disp_of_stake, St. }
   rewrite cf_chk_pairs_true; [reflexivity|].
   intros d' v' Hi. destruct (is_pair d v d' v') eqn:E; [reflexivity|]. cbn [orb]. apply is_pair_neq in E.
